@@ -68,7 +68,8 @@ def close(a, b, scale=1.0):
 class DrillholeScenario(BaseScenario):
     prop = "C18"
 
-    def __init__(self):
+    def __init__(self, prop="C18"):
+        self.prop = prop       # C12: the same histories with copies of the hole that are edited (the source must not notice, the copy must accept)
         self.expected_probes = ["collar_edit_after_positions", "surveys_edit_after_positions", "depth_exact_match", "depth_near_match", "depth_new", "depth_unsorted",
                                 "interval_exact_match", "interval_near_match", "interval_new", "interval_overlap", "depth_then_interval_then_depth", "several_depth_logs_one_call", "zero_length_leg",
                                 "single_row_table", "first_station_below_zero", "query_beyond_end", "tol_arg", "tol_attr", "tol_default_changed", "reopen",
@@ -313,8 +314,9 @@ class DrillholeScenario(BaseScenario):
                     if ops is not None:
                         op = ops[i]
                     else:
-                        kinds = sorted(KINDS)
-                        op = {"id": i, "k": rng.choices(kinds, [KINDS[k] for k in kinds])[0], "sub": rng.getrandbits(64)}
+                        weights = {**KINDS, "copy_edit": 10 if self.prop == "C12" else 1}
+                        kinds = sorted(weights)
+                        op = {"id": i, "k": rng.choices(kinds, [weights[k] for k in kinds])[0], "sub": rng.getrandbits(64)}
                     executed.append(op)
                     kind = op["k"]
                     r = random.Random(H(op["sub"], "args"))
@@ -657,6 +659,27 @@ class DrillholeScenario(BaseScenario):
             step = float(np.linalg.norm(pos_eps - pos))
             if not step <= eps * (1 + 1e-6) + 1e-9:
                 raise Violation("C18", "position_jumps", f"desurvey moves {step} between depths {dep} and {dep + eps}", discr)
+        return "ok"
+
+    def do_copy_edit(self, sim, ws, st, cfg, r, op_id):
+        """A copy of the hole next to it receives a depth log of its own and is removed again: the copy accepts it (C12), and the
+        source keeps exactly its depths and values (judged by the check that follows every event)."""
+        if st["collar"] is None or not st["depths"]:
+            return "skipped"
+        well = self.hole(ws, st["uid"])
+        try:
+            new = well.copy()
+        except Exception as err:  # pylint: disable=broad-except
+            raise Violation("C12", "copy_raises", f"copying a plain drillhole with depth logs raised {type(err).__name__}: {str(err)[:100]}", {"cls": "Drillhole", "exc": type(err).__name__}) from None
+        depth = max(e["d"] for e in st["depths"]) + 3.0
+        try:
+            new.add_data({f"cp{op_id}": {"depth": np.array([depth]), "values": np.array([1.0])}})
+        except Exception as err:  # pylint: disable=broad-except
+            raise Violation("C12", "copy_edit_refused", f"adding a depth log to the copy of a drillhole raised {type(err).__name__}: {str(err)[:100]} "
+                            "(the copy shares its DEPTH data with the source)", {"cls": "Drillhole", "exc": type(err).__name__}) from None
+        ws.remove_entity(new)
+        del new, well
+        sim.probe("copy_edited")
         return "ok"
 
     def do_gc(self, sim, ws, st, cfg, r, op_id):
